@@ -14,8 +14,8 @@ const pkgTypes = "internal/types"
 
 func init() {
 	register("C11", &propSpec{
-		Explanation: "Decides the structural core of C11: (R1) every (source,target) pair of the lossless-widening table read from the source is value-preserving by exact integer-range / IEEE significand facts, exhaustively over the table and all 17x17 ordered pairs; (R2) in checkTypeCompatibility the table is the only road from a numeric-numeric pair to an implicit classification; (R3) assignment-like sites consult the classification; (R4) in MIR lowering every position where an implicit conversion is accepted (initialiser, assignment, argument, return, struct field, array element, optional/result payload) runs a numeric coercion helper before the value is stored or passed, and the helpers reach the cast instructions; (C03.R5) arithmetic and compound assignment accept two typed operands only when their types are identical, so `x op= y` never narrows y. Does not decide untyped-literal contextualisation (C10) or named wrappers.",
-		Quick:       []ruleFn{c11R1, c11R2, c11R3, c11R4, c03R5},
+		Explanation: "Decides the structural core of C11: (R1) every (source,target) pair of the lossless-widening table read from the source is value-preserving by exact integer-range / IEEE significand facts, exhaustively over the table and all 17x17 ordered pairs; (R2) in checkTypeCompatibility the table is the only road from a numeric-numeric pair to an implicit classification; (R3) assignment-like sites consult the classification; (R4) in MIR lowering every position where an implicit conversion is accepted (initialiser, assignment, argument, return, struct field, array element, optional/result payload) runs a numeric coercion helper before the value is stored or passed, and the helpers reach the cast instructions; (C03.R5) arithmetic and compound assignment accept two typed operands only when their types are identical, so `x op= y` never narrows y; (C02.R3) widening casts extend by the signedness of the source type in both back ends. Does not decide untyped-literal contextualisation (C10) or named wrappers.",
+		Quick:       []ruleFn{c11R1, c11R2, c11R3, c11R4, c03R5, c02R3},
 		Assumptions: []string{"f128/f256 are IEEE binary128/binary256 (113/237-bit significands), as documented in runtime/core/bigint.h"},
 	})
 }
